@@ -198,14 +198,14 @@ func replayRefresh(b *refreshBehaviour) (res refreshResult) {
 			}
 		}
 		res.Reads += readsPerRoute
-		dl := time.Now().Add(5 * time.Second)
+		dl := time.Now().Add(20 * time.Second)
 		for {
 			n, _ := arrivals()
 			if n >= before+readsPerRoute {
 				break
 			}
 			if time.Now().After(dl) {
-				res.Err = fmt.Sprintf("step %d: only %d of %d reads arrived at a node within 5 s", step, n-before, readsPerRoute)
+				res.Err = fmt.Sprintf("step %d: only %d of %d reads arrived at a node within 20 s", step, n-before, readsPerRoute)
 				return false
 			}
 			time.Sleep(200 * time.Microsecond)
@@ -278,7 +278,7 @@ func replayRefresh(b *refreshBehaviour) (res refreshResult) {
 				res.Err = "OnSvcHostAdd: " + err.Error()
 				return
 			}
-			dl := time.Now().Add(5 * time.Second)
+			dl := time.Now().Add(20 * time.Second)
 			for {
 				now := 0
 				for _, n := range []*simredis.Node{a, bm} {
@@ -292,7 +292,7 @@ func replayRefresh(b *refreshBehaviour) (res refreshResult) {
 					break
 				}
 				if time.Now().After(dl) {
-					res.Err = fmt.Sprintf("step %d: no CLUSTER NODES arrived at a seed within 5 s after the trigger", i)
+					res.Err = fmt.Sprintf("step %d: no CLUSTER NODES arrived at a seed within 20 s after the trigger", i)
 					return
 				}
 				time.Sleep(200 * time.Microsecond)
@@ -301,10 +301,10 @@ func replayRefresh(b *refreshBehaviour) (res refreshResult) {
 		case "end":
 			a.Release(a.Pending())
 			bm.Release(bm.Pending())
-			dl := time.Now().Add(5 * time.Second)
+			dl := time.Now().Add(20 * time.Second)
 			for success() <= base {
 				if time.Now().After(dl) {
-					res.Err = fmt.Sprintf("step %d: the refresh did not complete within 5 s after its answer was released", i)
+					res.Err = fmt.Sprintf("step %d: the refresh did not complete within 20 s after its answer was released", i)
 					return
 				}
 				time.Sleep(200 * time.Microsecond)
@@ -323,7 +323,7 @@ func replayRefresh(b *refreshBehaviour) (res refreshResult) {
 	r1.SetGate(false)
 	for _, c := range clients {
 		for i := 0; i < readsPerRoute; i++ {
-			if _, err := c.Recv(5 * time.Second); err != nil {
+			if _, err := c.Recv(20 * time.Second); err != nil {
 				if res.Err == "" {
 					res.Err = "reply missing after everything was released: " + err.Error()
 				}
